@@ -84,7 +84,7 @@ pub proof fn lemma_nick_wf(o: VolatileState, n: VolatileState, a: String, b: Str
 }
 
 impl MainState {
-//@fn state/conn_cmds.rs MainState::process_nick unit=nick props=C15,C02,C03,C05,C11,C06,C04 rules=R1,R2,R6,R6q,R14
+//@fn state/conn_cmds.rs MainState::process_nick unit=nick props=C15,C02,C03,C05,C11,C06,C04,C19 rules=R1,R2,R6,R6q,R14
 //@callargs authenticate state,+Tracked(sig)
 //@spec
         requires
